@@ -24,6 +24,19 @@ import Corerad.Gen.Main
 
 namespace Corerad.Props.C20
 
+/-- `BuildTasks` wires every interface task as the properties assume (argument expressions of
+    the calls, regenerated): the link-state channel is the watcher's subscription for *this*
+    interface's `LinkDown` events and is the one handed to the task, the dialer is created for this
+    interface in the task's mode with the server's shared state, and the advertiser's terminate
+    function is the server's terminator. -/
+theorem gen_build_wiring :
+    Gen.Server.subscribeArgs = ["ifi.Name", "netstate.LinkDown"] ∧
+    Gen.Server.newAdvertiserArgs = ["s.cctx", "ifi", "dialer", "watchC", "s.t.terminate"] ∧
+    Gen.Server.newMonitorArgs = ["s.cctx", "ifi.Name", "dialer", "watchC", "ifi.Verbose"] ∧
+    Gen.Server.advDialerArgs = ["ifi.Name", "s.cctx.state", "system.Advertise", "s.cctx.ll"] ∧
+    Gen.Server.monDialerArgs = ["ifi.Name", "s.cctx.state", "system.Monitor", "s.cctx.ll"] := by
+  decide
+
 /-- How main uses the server: `Serve` runs exactly the tasks `BuildTasks` derives from the parsed
     configuration, and the signals which stop it are `Signals()` = SIGINT, SIGTERM, SIGHUP. -/
 theorem gen_main_serves_built_tasks :
